@@ -133,7 +133,7 @@ CHECKS = {
     },
     "C30": {
         "id": "C30", "pkg": "c30", "test": "TestC30", "level": "exploration",
-        "tags": "verif,maporder", "maporder": True,
+        "tags": "verif,maporder", "maporder": True, "divergence_is_violation": True,
         "runs": {"quick": 1600, "thorough": 200000},
         "chunk": 1500, "run_timeout_s": 20,
         "selftest": {"quick": 48, "thorough": 256}, "selftest_procs": {"quick": 3, "thorough": 12},
